@@ -54,7 +54,7 @@ func NewGroup[T any](
 		originNotFound:          notFound,
 		methodNotAllowedBuilder: methodNotAllowedBuilder,
 		optionsBuilder:          optionsBuilder,
-		options:                 o,
+		options:                 slices.Clone(o), // 不持有调用方的切片
 		recoverFunc:             opt.recoverFunc,
 	}
 }
@@ -134,7 +134,10 @@ func (g *Group[T]) Use(m ...types.Middleware[T]) {
 }
 
 // Routers 返回路由列表
-func (g *Group[T]) Routers() []*Router[T] { return g.routers }
+// Routers 返回路由列表
+//
+// 返回的是副本，调用方对其的修改（比如排序）不会影响到路由与其匹配方式的对应关系。
+func (g *Group[T]) Routers() []*Router[T] { return slices.Clone(g.routers) }
 
 func (g *Group[T]) Remove(name string) {
 	if i := slices.IndexFunc(g.routers, func(r *Router[T]) bool { return r.Name() == name }); i >= 0 { // 名称是唯一的
